@@ -137,12 +137,22 @@ def run(tier, seed, rng):
                     continue  # written by the user in the item itself (requested derives, field types, bounds), copied through
             if canon not in allowed[d]:
                 unacc.setdefault((d, canon), (e, src, o))
+    # references outside the model's per-derive table are judged by the model's predicates (noStdOk, cratePathOk,
+    # shadowSafe): a new `::core::..` path or strum item through the configured path is fine (harmless refactor); anything
+    # else is a violation with the definition as the failing program.
+    canons = sorted(set(c for (_, c) in unacc))
+    verdicts = dict(zip(canons, leanside.run_driver(['refok %s' % c.replace(' ', '') for c in canons]))) if canons else {}
+    nbad = 0
     for (d, canon), (e, src, o) in unacc.items():
-        bad = canon.startswith(('absStd', 'hardStrum', 'rel:', 'absOther')) or canon in ('macro:format', 'macro:vec', 'bare:String', 'bare:Vec', 'bare:Box', 'bare:ToString', 'bare:ToOwned')
-        res.violation({'kind': 'unaccounted_reference', 'label': 'modeA', 'derive': d, 'reference': canon, 'enum': e.to_json(), 'source': src,
-                       'impl': o[:400], 'what': 'the expansion contains a reference the model does not list' + (' (and it is not allowed)' if bad else '')},
-                      no_failing_input=not bad)
-    res.cov['modeA'] = {'expansions': len(lines), 'references_checked': nrefs, 'unaccounted': len(unacc)}
+        v = verdicts.get(canon, 'unknown-kind')
+        if v == 'ok':
+            res.notes.append('reference outside the model table but allowed by its predicates: %s emits %s' % (d, canon))
+            continue
+        nbad += 1
+        res.violation({'kind': 'disallowed_reference', 'label': 'modeA', 'derive': d, 'reference': canon, 'model': v, 'enum': e.to_json(),
+                       'source': src, 'impl': o[:400],
+                       'what': 'the expansion contains a reference that is not no_std-clean / bypasses the crate path / can be shadowed (%s)' % v})
+    res.cov['modeA'] = {'expansions': len(lines), 'references_checked': nrefs, 'outside_table': len(unacc), 'disallowed': nbad}
     # ---- (ii) mode B: rustc as oracle, three configurations
     nostd = [e for e in especs]
     build_config(res, 'no_std', nostd, runner.Workspace('c19nostd', features=('derive',), default_features=False, target_key='nostd'),
